@@ -481,6 +481,10 @@ def run(ctx, rep):
     fin_rules(facts, rep)
     method_rules(ctx, facts, rep)
     mode_rules(ctx, facts, rep)
+    from rules.shared_count import count_rule
+    from rules.C03 import search_rules
+    count_rule(facts, rep, rule="C01-COUNT", only=r"ZipWriter<W>>::write$|MaybeEncrypted|Crc32Reader")
+    search_rules(ctx, facts, rep)
     rep.floor("C01-CODEC", 100, "5 records x writer+reader, one instance per field")
     rep.assume("compression libraries reproduce their input (flate2, bzip2, zstd)")
     rep.assume("the sink honours Seek")
